@@ -7,6 +7,7 @@ set -u
 R=${VP_RUN_REPO:?run under vp run --with-repo}
 export VERIF_REPO=$R CARGO_NET_OFFLINE=true
 sed -i "s#path = \"/repo\"#path = \"$R\"#" harness/Cargo.toml
+[ -f $R/Cargo.lock ] || cp /repo/Cargo.lock $R/Cargo.lock     # untracked in the repository, not in the snapshot
 ./setup.sh > setup.log 2>&1 || { echo "setup failed"; tail -20 setup.log; exit 2; }
 ok=0; miss=0
 for d in seeded/${1:-}*/; do
